@@ -154,3 +154,76 @@ func vfhC20PointOnSurfaceTransparency() {
 	vfAssert(vfAnd(p0.X == p1.X, p0.Y == p1.Y), "PointOnSurface is unchanged by an empty member")
 	vfReach("end")
 }
+
+func init() {
+	vfHarnesses["C20_member_transparency"] = vfhC20MemberTransparency
+	vfHarnesses["C09_member_transparency"] = vfhC20MemberTransparency
+}
+
+// An EMPTY member inserted at any position of a Multi* geometry changes
+// neither Intersects nor Distance against another geometry (the member that
+// decides the answer may come after the empty one, lie strictly inside the
+// other operand, or be the far one).
+func vfhC20MemberTransparency() {
+	type row struct {
+		kind    string
+		members []string
+		other   string
+	}
+	rows := []row{
+		{"MULTILINESTRING", []string{"(2 2,3 3)"}, "POLYGON((0 0,10 0,10 10,0 10,0 0))"},
+		{"MULTILINESTRING", []string{"(20 20,21 21)", "(2 2,3 3)"}, "POLYGON((0 0,10 0,10 10,0 10,0 0))"},
+		{"MULTILINESTRING", []string{"(20 20,21 21)", "(2 2,3 3)"}, "MULTIPOLYGON(((50 50,60 50,60 60,50 50)),((0 0,10 0,10 10,0 10,0 0)))"},
+		{"MULTILINESTRING", []string{"(20 20,21 21)", "(30 30,31 35)"}, "POLYGON((0 0,10 0,10 10,0 10,0 0))"},
+		{"MULTILINESTRING", []string{"(20 20,21 21)", "(0 5,5 0)"}, "LINESTRING(0 0,4 4)"},
+		{"MULTILINESTRING", []string{"(20 20,21 21)", "(0 5,5 0)"}, "MULTIPOINT(9 9,1 4)"},
+		{"MULTIPOINT", []string{"(20 20)", "(2 3)"}, "POLYGON((0 0,10 0,10 10,0 10,0 0))"},
+		{"MULTIPOINT", []string{"(20 20)", "(2 3)"}, "LINESTRING(0 1,4 5)"},
+		{"MULTIPOLYGON", []string{"((20 20,21 20,21 21,20 20))", "((2 2,3 2,3 3,2 2))"}, "POLYGON((0 0,10 0,10 10,0 10,0 0))"},
+		{"MULTIPOLYGON", []string{"((20 20,21 20,21 21,20 20))", "((0 0,10 0,10 10,0 10,0 0))"}, "LINESTRING(2 2,3 3)"},
+		{"MULTIPOLYGON", []string{"((20 20,21 20,21 21,20 20))", "((0 0,10 0,10 10,0 10,0 0))"}, "MULTILINESTRING((40 40,41 41),(2 2,3 3))"},
+	}
+	r := rows[vfInt("case", 0, len(rows)-1)]
+	pos := vfInt("empty-at", 0, 2)
+	vfAssume(pos <= len(r.members))
+	build := func(withEmpty bool) Geometry {
+		txt := r.kind + "("
+		n := 0
+		for i := 0; i <= len(r.members); i++ {
+			if withEmpty && i == pos {
+				if n > 0 {
+					txt += ","
+				}
+				txt += "EMPTY"
+				n++
+			}
+			if i < len(r.members) {
+				if n > 0 {
+					txt += ","
+				}
+				txt += r.members[i]
+				n++
+			}
+		}
+		g, err := UnmarshalWKT(txt + ")")
+		vfAssert(err == nil, "operand parses")
+		return g
+	}
+	plain, with := build(false), build(true)
+	other, err := UnmarshalWKT(r.other)
+	vfAssert(err == nil, "other operand parses")
+	if vfBool("wrapped") {
+		with = NewGeometryCollection([]Geometry{with}).AsGeometry()
+	}
+	vfAssert(Intersects(with, other) == Intersects(plain, other), "Intersects(with, other) unchanged by the empty member")
+	vfAssert(Intersects(other, with) == Intersects(other, plain), "Intersects(other, with) unchanged by the empty member")
+	d1, ok1 := Distance(with, other)
+	d0, ok0 := Distance(plain, other)
+	vfAssert(ok1 == ok0 && d1 == d0, "Distance(with, other) unchanged by the empty member")
+	d1, ok1 = Distance(other, with)
+	vfAssert(ok1 == ok0 && d1 == d0, "Distance(other, with) unchanged by the empty member")
+	dj1, err1 := Disjoint(with, other)
+	dj0, err0 := Disjoint(plain, other)
+	vfAssert(err1 == nil && err0 == nil && dj1 == dj0 && dj1 == !Intersects(with, other), "Disjoint agrees")
+	vfReach("end")
+}
